@@ -1,5 +1,5 @@
 """Per-property configuration: which generator feeds it, which verdict tags decide it."""
-import os, json, re, glob, math
+import os, json, re, glob, math, struct
 import gen
 from gen import Case, bits
 
@@ -2013,4 +2013,243 @@ def gen_addc_model(quick, thorough):
 PROPS["C12"]["gen"] = gen_union(PROPS["C12"]["gen"], gen_addc_model(1200, 12000))
 PROPS["C04"]["gen"] = gen_union(PROPS["C04"]["gen"], gen_addc_model(600, 6000))
 PROPS["C03"]["gen"] = gen_union(PROPS["C03"]["gen"], gen_addc_model(600, 6000))
+
+
+
+# M5: executable model of the flood-fill iterator (Query/FloodFill.v): result lists of vrect / erect / vcirc / ecirc compared in order
+PROPS["C16"]["model"] = True
+PROPS["C16"]["tags"] = PROPS["C16"]["tags"] + ["corr"]
+
+def gen_flood(quick, thorough, kinds=("dt", "cdt"), f32_share=0.1):
+    """M5: rectangle / circle queries for the flood-fill model (Query/FloodFill.v) on triangulations of 0..45 lattice / cocircular / collinear /
+    clustered integer points (bulk-loaded or inserted): shapes containing the whole hull, outside the hull (beside the bounding box, and inside
+    the bounding box beyond a slanted hull edge), degenerate shapes (a point on a vertex / an edge / in a face / outside, axis-parallel segments through
+    vertices and along edges, inverted rectangles, radius 0), rectangles with corners on vertices and sides along lattice edges, circles through
+    vertices and tangent to edges, thin slivers across the whole triangulation and medium shapes (the loop runs into itself)"""
+    def g(r, tier):
+        out = []
+        for i in range(n_cases(tier, quick, thorough)):
+            kind, scalar, hint = gen.pick_cfg(r, kinds, f32_share)
+            c = Case("ff%d" % i, kind, scalar, hint)
+            style = r.weighted([('grid', 40), ('dense', 25), ('circle', 10), ('line', 8), ('cluster', 7), ('tiny', 10)])
+            nmax = 45 if tier != "thorough" else 70
+            if style == 'tiny':
+                n = r.range(0, 3)
+                pts = [gen.grid_point(r, 2) for _ in range(n)]
+            elif style == 'dense':
+                w, h = r.range(2, 7), r.range(2, 6)
+                ox, oy = r.range(-4, 2), r.range(-4, 2)
+                pts = [(float(ox + x), float(oy + y)) for x in range(w) for y in range(h) if not r.chance(0.15)]
+                r.shuffle(pts)
+            else:
+                n = r.range(3, nmax)
+                pts = gen.point_cloud(r, n, style, scalar == "f32")
+            c.meta = {"style": "flood-" + style, "kind": kind, "scalar": scalar, "hint": hint}
+            if r.chance(0.7) and pts:
+                toks = []
+                for j, (x, y) in enumerate(pts):
+                    toks += [bits(x), bits(y), j + 1]
+                c.add("bulks" if r.chance(0.5) else "bulk", len(pts), *toks)
+            else:
+                for j, (x, y) in enumerate(pts[:25]):
+                    c.ins(x, y, j + 1)
+                pts = pts[:25]
+            pool = pts if pts else [(0.0, 0.0)]
+            xs = [p[0] for p in pool]; ys = [p[1] for p in pool]
+            x0, x1, y0, y1 = min(xs), max(xs), min(ys), max(ys)
+            def vertex():
+                return r.choice(pool)
+            def anyp():
+                k = r.below(5)
+                if k == 0:
+                    return vertex()
+                if k == 1:
+                    a, b = vertex(), vertex()
+                    return ((a[0] + b[0]) / 2.0, (a[1] + b[1]) / 2.0)
+                if k == 2:
+                    a, b, cc = vertex(), vertex(), vertex()
+                    return ((a[0] + b[0] + 2 * cc[0]) / 4.0, (a[1] + b[1] + 2 * cc[1]) / 4.0)
+                if k == 3:
+                    return (float(r.range(int(x0) - 3, int(x1) + 3)), float(r.range(int(y0) - 3, int(y1) + 3)))
+                return (r.range(2 * int(x0) - 4, 2 * int(x1) + 4) / 2.0, r.range(2 * int(y0) - 4, 2 * int(y1) + 4) / 2.0)
+            def rect(lo, hi):
+                c.add(r.choice(["vrect", "erect"]), bits(lo[0]), bits(lo[1]), bits(hi[0]), bits(hi[1]))
+            def circ(cc, r2):
+                c.add(r.choice(["vcirc", "ecirc"]), bits(cc[0]), bits(cc[1]), bits(float(r2)))
+            for _ in range(r.range(10, 24)):
+                k = r.below(17)
+                if k == 16:     # an axis-parallel segment strictly inside the span of two vertices on one lattice line (no end point on a vertex)
+                    a = vertex()
+                    same = [b for b in pool if b != a and (b[0] == a[0] or b[1] == a[1])]
+                    if same:
+                        b = r.choice(same)
+                        p1 = (a[0] + (b[0] - a[0]) / 4.0, a[1] + (b[1] - a[1]) / 4.0); p2 = (a[0] + 3 * (b[0] - a[0]) / 4.0, a[1] + 3 * (b[1] - a[1]) / 4.0)
+                        if r.chance(0.3): p2 = p1
+                        rect((min(p1[0], p2[0]), min(p1[1], p2[1])), (max(p1[0], p2[0]), max(p1[1], p2[1])))
+                    else:
+                        rect(a, a)
+                elif k == 0:      # contains the whole hull (exactly the bounding box, or with a margin)
+                    m = r.choice([0.0, 0.0, 0.5, 1.0, 100.0])
+                    rect((x0 - m, y0 - m), (x1 + m, y1 + m))
+                elif k == 1:    # beside the bounding box (touching it or not)
+                    m = r.choice([0.0, 0.5, 1.0, 7.0])
+                    side = r.below(4)
+                    w = float(r.range(0, 5))
+                    if side == 0: rect((x1 + m, y0 - 1), (x1 + m + w, y1 + 1))
+                    elif side == 1: rect((x0 - m - w, y0), (x0 - m, y1))
+                    elif side == 2: rect((x0 - 2, y1 + m), (x1 + 2, y1 + m + w))
+                    else: rect((x0, y0 - m - w), (x1, y0 - m))
+                elif k == 2:    # a corner region of the bounding box (often beyond a slanted hull edge)
+                    w = r.choice([0.5, 1.0, 1.5, 2.0])
+                    cx = r.choice([x0, x1]); cy = r.choice([y0, y1])
+                    rect((min(cx, cx + (w if cx == x0 else -w)), min(cy, cy + (w if cy == y0 else -w))),
+                         (max(cx, cx + (w if cx == x0 else -w)), max(cy, cy + (w if cy == y0 else -w))))
+                elif k == 3:    # a point
+                    p = anyp(); rect(p, p)
+                elif k == 4:    # an axis-parallel segment through a vertex / along lattice edges
+                    p = vertex(); l = float(r.range(0, 8)); l2 = float(r.range(0, 8))
+                    if r.chance(0.5): rect((p[0] - l, p[1]), (p[0] + l2, p[1]))
+                    else: rect((p[0], p[1] - l), (p[0], p[1] + l2))
+                elif k == 5:    # inverted
+                    a, b = anyp(), anyp()
+                    lo = (max(a[0], b[0]) + r.choice([0.0, 1.0]), max(a[1], b[1])); hi = (min(a[0], b[0]), min(a[1], b[1]) - r.choice([0.0, 1.0]))
+                    if r.chance(0.3): lo, hi = (hi[0], lo[1]), (lo[0], hi[1])           # inverted in y only
+                    rect(lo, hi)
+                elif k == 6:    # corners on vertices
+                    a, b = vertex(), vertex()
+                    rect((min(a[0], b[0]), min(a[1], b[1])), (max(a[0], b[0]), max(a[1], b[1])))
+                elif k == 7:    # thin sliver across the triangulation
+                    if r.chance(0.5):
+                        y = r.range(2 * int(y0), 2 * int(y1)) / 2.0; t = r.choice([0.0, 0.25, 0.5, 1.0])
+                        rect((x0 - r.choice([0.0, 1.0, -1.0]), y), (x1 + r.choice([0.0, 1.0, -1.0]), y + t))
+                    else:
+                        x = r.range(2 * int(x0), 2 * int(x1)) / 2.0; t = r.choice([0.0, 0.25, 0.5, 1.0])
+                        rect((x, y0 - r.choice([0.0, 1.0, -1.0])), (x + t, y1 + r.choice([0.0, 1.0, -1.0])))
+                elif k in (8, 9):   # general rectangle
+                    a, b = anyp(), anyp()
+                    rect((min(a[0], b[0]), min(a[1], b[1])), (max(a[0], b[0]), max(a[1], b[1])))
+                elif k == 10:   # circle through a vertex (centre anywhere)
+                    cc, v = anyp(), vertex()
+                    circ(cc, (cc[0] - v[0]) ** 2 + (cc[1] - v[1]) ** 2)
+                elif k == 11:   # radius 0
+                    circ(anyp(), 0.0)
+                elif k == 12:   # containing everything / far away
+                    if r.chance(0.5): circ(anyp(), 4.0 * ((x1 - x0) ** 2 + (y1 - y0) ** 2) + 100.0)
+                    else: circ((x1 + float(r.range(2, 9)), y1 + float(r.range(0, 9))), float(r.choice([0, 1, 2, 4])))
+                elif k == 13:   # tangent to an axis-parallel line through a vertex
+                    cc, v = anyp(), vertex()
+                    dd = cc[0] - v[0] if r.chance(0.5) else cc[1] - v[1]
+                    circ(cc, dd * dd)
+                else:           # general circle
+                    circ(anyp(), r.choice([0.25, 0.5, 1.0, 2.0, 4.0, 5.0, 6.25, 9.0, 13.0, 25.0, float(r.range(0, 60))]))
+            out.append(c)
+        return out
+    return g
+
+PROPS["C16"]["gen"] = gen_union(PROPS["C16"]["gen"], gen_flood(300, 4000))
+
+def gen_flood_inexact(quick, thorough, kinds=("dt", "cdt"), f32_share=0.25):
+    """M5: the same queries on inputs whose floating-point evaluation ROUNDS (compared through the IEEE metrics of Query/FloodFillFloat.v):
+    ulp-perturbed lattices, decimal fractions, extreme magnitudes, nearly collinear big coordinates, f32; shape parameters that are decimal
+    fractions, one ulp beside vertex coordinates, radii equal to rounded distances"""
+    def g(r, tier):
+        out = []
+        for i in range(n_cases(tier, quick, thorough)):
+            kind, scalar, hint = gen.pick_cfg(r, kinds, f32_share)
+            f32 = scalar == "f32"
+            c = Case("fx%d" % i, kind, scalar, hint)
+            style = r.weighted([('ulp', 30), ('decimal', 30), ('mag', 10), ('bigcol', 8), ('unimod', 6), ('bigcircle', 6), ('grid', 10)])
+            n = r.range(1, 35 if tier != "thorough" else 60)
+            if style == 'decimal':
+                g_ = r.choice([1, 2, 3, 5])
+                pts = [(r.range(-10 * g_, 10 * g_) / 10.0, r.range(-10 * g_, 10 * g_) / 10.0) for _ in range(n)]
+            elif style == 'mag':
+                # coordinates m * 2^e at extreme exponents; mixed exponents in one triangulation (coarse rounding relative to the features: the class
+                # of the known finding C16-flood-fill-rounding-hang; every hang costs a watchdog period and is shrunk) only in the thorough tier, and rarely
+                lo_e, hi_e = (-120, 100) if f32 else (-142, 195)
+                e0 = r.choice([lo_e, hi_e - 6, r.range(lo_e, hi_e - 6)])
+                mixed = tier == "thorough" and r.chance(0.03)
+                pts = []
+                for _ in range(n):
+                    e = e0 if not mixed else r.choice([lo_e, hi_e - 6, 0])
+                    pts.append((r.range(-9, 9) * 2.0 ** e, r.range(-9, 9) * 2.0 ** e))
+            else:
+                pts = gen.point_cloud(r, n, style, f32)
+            def rnd(x):
+                if not f32: return x
+                try: return struct.unpack('<f', struct.pack('<f', x))[0]
+                except OverflowError: return 3.0e38 if x > 0 else -3.0e38
+            pts = [(rnd(x), rnd(y)) for (x, y) in pts]
+            # the exact specification (tag shape) is not demanded here: the documented answer is not computable in floating point on these inputs
+            # (rounded squared distances / quotients); what is compared is the model with IEEE arithmetic against the implementation
+            c.meta = {"style": "floodx-" + style, "kind": kind, "scalar": scalar, "hint": hint, "only_tags": ["corr", "parse"]}
+            toks = []
+            for j, (x, y) in enumerate(pts):
+                toks += [bits(x), bits(y), j + 1]
+            c.add("bulks" if r.chance(0.5) else "bulk", len(pts), *toks)
+            pool = pts
+            xs = [p[0] for p in pool]; ys = [p[1] for p in pool]
+            x0, x1, y0, y1 = min(xs), max(xs), min(ys), max(ys)
+            span = max(x1 - x0, y1 - y0, abs(x0), abs(y0), 1e-300)
+            def vertex():
+                return r.choice(pool)
+            def jitter(x):
+                k = r.below(4)
+                if k == 0: return x
+                if k == 1: return gen.ulp_step(x if x != 0 else span * 1e-3, r.choice([-2, -1, 1, 2]), f32)
+                if k == 2: return rnd(x + span * r.choice([0.1, -0.1, 0.3, 1e-9, -1e-9, 0.7]))
+                return rnd(x * r.choice([1.0000001, 0.9999999, 1.5, 0.5]))
+            def anyp():
+                k = r.below(4)
+                if k == 0:
+                    v = vertex(); return (jitter(v[0]), jitter(v[1]))
+                if k == 1:
+                    a, b = vertex(), vertex(); t = r.choice([0.5, 0.1, 0.3, 1.0 / 3.0, 0.9])
+                    return (rnd(a[0] + t * (b[0] - a[0])), rnd(a[1] + t * (b[1] - a[1])))
+                if k == 2:
+                    a, b, cc = vertex(), vertex(), vertex()
+                    return (rnd((a[0] + b[0] + cc[0]) / 3.0), rnd((a[1] + b[1] + cc[1]) / 3.0))
+                return (rnd(x0 + (x1 - x0) * r.range(-3, 13) / 10.0), rnd(y0 + (y1 - y0) * r.range(-3, 13) / 10.0))
+            def rect(lo, hi):
+                c.add(r.choice(["vrect", "erect"]), bits(lo[0]), bits(lo[1]), bits(hi[0]), bits(hi[1]))
+            def circ(cc, r2):
+                r2 = rnd(float(r2))
+                if r2 != r2 or r2 in (float('inf'),) or r2 < 0: r2 = 0.0
+                c.add(r.choice(["vcirc", "ecirc"]), bits(cc[0]), bits(cc[1]), bits(r2))
+            for _ in range(r.range(10, 24)):
+                k = r.below(10)
+                if k == 0:
+                    rect((jitter(x0), jitter(y0)), (jitter(x1), jitter(y1)))
+                elif k == 1:
+                    p = anyp(); rect(p, p)
+                elif k == 2:
+                    p = anyp(); q = anyp()
+                    if r.chance(0.5): rect((min(p[0], q[0]), p[1]), (max(p[0], q[0]), p[1]))
+                    else: rect((p[0], min(p[1], q[1])), (p[0], max(p[1], q[1])))
+                elif k in (3, 4, 5):
+                    a, b = anyp(), anyp()
+                    lo, hi = (min(a[0], b[0]), min(a[1], b[1])), (max(a[0], b[0]), max(a[1], b[1]))
+                    if r.chance(0.08): lo, hi = hi, lo
+                    rect(lo, hi)
+                elif k == 6:      # circle through (the rounded distance to) a vertex
+                    cc, v = anyp(), vertex()
+                    d2 = (cc[0] - v[0]) ** 2 + (cc[1] - v[1]) ** 2
+                    circ(cc, gen.ulp_step(rnd(d2), r.choice([0, 0, -1, 1]), f32) if d2 == d2 and d2 != float('inf') and d2 > 0 else 0.0)
+                elif k == 7:      # circle tangent (up to rounding) to the line through two vertices
+                    cc, a, b = anyp(), vertex(), vertex()
+                    l2 = (b[0] - a[0]) ** 2 + (b[1] - a[1]) ** 2
+                    if l2 > 0 and l2 != float('inf'):
+                        o = (b[0] - a[0]) * (cc[1] - a[1]) - (b[1] - a[1]) * (cc[0] - a[0])
+                        circ(cc, o * o / l2)
+                    else:
+                        circ(cc, 0.0)
+                elif k == 8:
+                    circ(anyp(), 0.0)
+                else:
+                    circ(anyp(), span * span * r.choice([0.01, 0.1, 0.3, 1.0, 4.0]))
+            out.append(c)
+        return out
+    return g
+
+PROPS["C16"]["gen"] = gen_union(PROPS["C16"]["gen"], gen_flood_inexact(200, 3000))
 
